@@ -14,6 +14,18 @@ class KTable:
         if wngrid is not None:
             wngrid_filter = np.where((self.wavenumberGrid >= wngrid.min()) & (
                 self.wavenumberGrid <= wngrid.max()))[0]
+            if not np.array_equal(self.wavenumberGrid.take(wngrid_filter),
+                                  wngrid):
+                # Interpolation is needed: also take the native point on
+                # either side of the requested range so that every requested
+                # point is interpolated between its own native neighbours
+                # whatever the range requested
+                start = np.searchsorted(self.wavenumberGrid, wngrid.min(),
+                                        side='left') - 1
+                stop = np.searchsorted(self.wavenumberGrid, wngrid.max(),
+                                       side='right') + 1
+                wngrid_filter = np.arange(max(start, 0), min(
+                    stop, self.wavenumberGrid.shape[0]))
         orig = self.compute_opacity(temperature, pressure, wngrid_filter).reshape(-1, len(self.weights))
 
         if wngrid is None or np.array_equal(self.wavenumberGrid.take(wngrid_filter), wngrid):
